@@ -38,6 +38,7 @@ def run(idx: ProgramIndex, rep: Report, tier: str):
         "clause of C10 is decided: densities, KL and sampling are numerical.")
     rep.rule("C10-1", "arithmetic operators act on (mean, covariance) as on the random vector: (m+m', C+C'), (m+c, C), (cm, c^2 C), jitter on C only, m -/+ 2 stddev")
     rep.rule("C10-2", "indexing applies the same event index to the mean and to both covariance axes")
+    rep.rule("C10-4", "no in-place aliasing hazard in MultivariateNormal (e.g. confidence_region must not overwrite the mean)")
     rep.rule("C10-3", "expand / unsqueeze apply the same batch operation to mean and covariance")
     M = idx.cls(MOD, "MultivariateNormal")
 
@@ -217,3 +218,6 @@ def run(idx: ProgramIndex, rep: Report, tier: str):
             ok = ok and len(set(args)) == 1
             why = "mean and covariance are unsqueezed at the same (negative) batch position"
         rep.add("C10-3", "%s:MultivariateNormal.%s" % (MOD, name), f.where, ok, why if ok else "%s does not apply the same batch operation to mean and covariance" % name, {})
+
+    from .common_alias import aliasing_obligations
+    aliasing_obligations(idx, rep, "C10-4", list(M.methods.values()), 15, "MultivariateNormal methods interpreted")
